@@ -40,9 +40,10 @@ class InverseCDF:
     """Exact-rational cumulative intervals [F_(k-1), F_k) of a flat rate array.
 
     place(u) returns the set of admissible bins for a uniform u: the bin whose exact interval
-    contains u, plus - when u is within `slop` of an interval boundary - the neighbouring
-    positive-rate bin (the library works with float cumulative sums; a draw within the float
-    slop of a boundary may legitimately fall on either side). Zero-rate bins have empty
+    contains u, plus - when u is within `slop` of an interval boundary - the positive-rate
+    bins on the other side of it (the library works with float cumulative sums; a draw within
+    the float slop of a boundary may legitimately fall on either side, and across bins that are
+    themselves narrower than the slop). Zero-rate bins have empty
     intervals and are never admissible.
     """
 
@@ -76,12 +77,19 @@ class InverseCDF:
         amb = False
         lo = self.upper_f[i - 1] if i > 0 else 0.0
         hi = self.upper_f[i]
-        if i > 0 and u - lo <= self.slop:
-            cands.add(self.pos[i - 1])
+        # every positive bin whose interval comes within the float slop of u is admissible: usually that is one
+        # neighbour, but bins narrower than the slop (rates many decades below the total) collapse in a float cumulative
+        # sum, and a draw at such a boundary may legitimately land beyond them
+        j = i
+        while j > 0 and u - self.upper_f[j - 1] <= self.slop:
+            cands.add(self.pos[j - 1])
             amb = True
-        if i < len(self.pos) - 1 and hi - u <= self.slop:
-            cands.add(self.pos[i + 1])
+            j -= 1
+        j = i
+        while j < len(self.pos) - 1 and self.upper_f[j] - u <= self.slop:
+            cands.add(self.pos[j + 1])
             amb = True
+            j += 1
         return sorted(cands), amb
 
     def quantile_of_kth(self, n_active):
